@@ -91,5 +91,51 @@ def outage_and_catch_up():
             "scenario": "Disconnected: post m1, m2; CatchingUp with m2's first attempt failing; CatchingUp again; CatchingUp on an empty buffer"}
 
 
+def two_sends_in_flight_when_the_connection_closes():
+    """Connected; two posts are in flight (both suspended inside send_async) when the connection closes: both must end up in the buffer"""
+    import logging
+    logging.disable(logging.CRITICAL)
+    from openpectus.engine.engine_runner import EngineRunner
+    from openpectus.protocol.engine_dispatcher import EngineDispatcher
+    from openpectus.protocol.exceptions import ProtocolNetworkException
+    import openpectus.protocol.engine_messages as EM
+
+    class Disp:
+        def __init__(self):
+            self._sequence_number = 1
+            self._engine_id = "E"
+
+        def assign_sequence_number(self, message):
+            return EngineDispatcher.assign_sequence_number(self, message)
+
+        async def send_async(self, message):
+            self.assign_sequence_number(message)
+            await asyncio.sleep(0)
+            raise ProtocolNetworkException("connection closed")
+
+    async def body():
+        r = object.__new__(EngineRunner)
+        r._dispatcher, r._message_builder = Disp(), None
+        r._state, r._message_buffer = "Connected", []
+        r._state_task = r._transmit_buffer_task = None
+        r.state_changing_callback = None
+
+        async def set_state(state):
+            r._state = state
+        r._set_state = set_state
+        m1 = EM.RunStartedMsg(run_id="R", started_tick=1.0)
+        m2 = EM.WebPushNotificationMsg(notification=None, topic=None) if False else EM.RunStartedMsg(run_id="R2", started_tick=2.0)
+        await asyncio.gather(r._post_async(m1), r._post_async(m2))
+        lost = [m.run_id for m in (m1, m2) if m not in r._message_buffer]
+        return {"violated": bool(lost), "lost": lost, "buffered": [m.run_id for m in r._message_buffer], "state": r._state}
+    try:
+        res = asyncio.run(body())
+    finally:
+        logging.disable(logging.NOTSET)
+    res["scenario"] = "two _post_async calls suspended in send_async when the connection closes"
+    return res
+
+
 if __name__ == "__main__":
     print(outage_and_catch_up())
+    print(two_sends_in_flight_when_the_connection_closes())
